@@ -98,9 +98,19 @@ func lastKind(a *workflow.Action) (kind string, rtag string) {
 		}
 		return "wrongtype", ""
 	case at.Err.Permanent:
-		return "perm", ""
+		return "perm", errTag(at.Err.Message)
 	}
-	return "tr", ""
+	return "tr", errTag(at.Err.Message)
+}
+
+// errTag extracts the invocation tag the harness plugins put into their error messages ("tr a@2", "perm a@1").
+func errTag(msg string) string {
+	for i := 0; i < len(msg); i++ {
+		if msg[i] == ' ' {
+			return msg[i+1:]
+		}
+	}
+	return ""
 }
 
 // attemptsOrdered reports start<=end for every attempt and non-decreasing order of attempts.
